@@ -106,6 +106,16 @@ def cases(draw, pairs=False):
 
 
 @st.composite
+def larger_cases(draw):
+    """dense 3-4 annotator continua up to 3x14 / 4x7: the LP relaxation is fractional there and the solver has to branch"""
+    cs = draw(gen.continuum_and_spec(kinds=("combined", "combined", "pos", "precomputed", "ordinal"), min_ann=3, max_ann=4, budget=3500, max_per=14,
+                                     shapes=["random", "random", "clusters", "coincide"], span=30, equal_delta_only=True))
+    cs["backend"] = draw(st.sampled_from(["cbc", "cbc", "cbc", "glpk"]))
+    cs["xcheck"] = 0
+    return cs
+
+
+@st.composite
 def history_cases(draw):
     from . import c07
     cs = draw(cases())
@@ -117,6 +127,8 @@ def subchecks(tier):
     subs = [
         Sub(name="history", check=check, strategy=history_cases(),
             examples={"quick": 60, "thorough": 800}, shards={"quick": 8, "thorough": 16}),
+        Sub(name="larger", check=check, strategy=larger_cases(),
+            examples={"quick": 40, "thorough": 600}, shards={"quick": 8, "thorough": 16}),
         Sub(name="random", check=check, strategy=cases(),
             examples={"quick": 300, "thorough": 2500}, shards={"quick": 8, "thorough": 16}),
         Sub(name="pairs", check=check, strategy=cases(pairs=True),
